@@ -293,9 +293,11 @@ the real uniseg on every op (the `v=` field of the implementation is uniseg's se
 def St.cls (s : St) (a : Nat) : Char := s.classes.getD a 'O'
 def St.cl (s : St) : List Nat → List (List Nat) := clUax s.cls
 /-- `isAlphaNumeric` of a character: a single rune that is a letter or number. -/
-def St.isWordC (s : St) : List Nat → Bool
-  | [a] => s.words.getD a false
-  | _ => false
+def St.isWordC (s : St) (c : List Nat) : Bool :=
+  -- through the translated body of `isAlphaNumeric`; `unicode.IsLetter || IsNumber` of an atom from the case header
+  match EdRun.tiIsAlnumI EdGen.genTi (fun a => s.words.getD a false) (fun _ => false) c with
+  | some b => b
+  | none => (match c with | [a] => s.words.getD a false | _ => false)
 def St.cchars (s : St) (c : List Nat) : List Nat := ((s.cw.find? (·.1 == c)).map (·.2)).getD [1]
 def St.cwidth (s : St) (c : List Nat) : Nat := (s.cchars c).foldl (· + ·) 0
 
